@@ -1,44 +1,22 @@
-from checks import hG as h
+from checks import hC12 as h
 from crosshair.core import deep_realize, realize
 from crosshair.tracers import NoTracing
-import importlib
 CFG = {}
 def prepare(cfg):
-    plan = importlib.import_module('checks.C05').plan('quick', 0)
-    c = [c for c in plan['families'][0]['jobs'] if c['label'] == 'a:repeat'][0]
-    h.CFG.clear(); h.CFG.update(c); h.prepare(h.CFG)
-def d1(i0: int, i1: int) -> bool:
+    h.CFG.clear(); h.CFG.update({'template': 'macro-chain'}); h.prepare(h.CFG)
+def d1(a: int) -> bool:
     """
-    pre: 0 <= i0 < 3 and 0 <= i1 < 5
+    pre: a == 0
     post: _
     """
-    return h.agree(h.bind((i0, i1, 0, 0, 0, 0), (False,)*6))
-
-import traceback, collections, atexit
-from crosshair import statespace as SS
-_orig = SS.StateSpace.choose_possible
-CNT = collections.Counter()
-def _r(self, expr, *a, **k):
-    with NoTracing():
-        st = traceback.extract_stack()[-9:-1]
-        key = str(expr)[:60].replace('\n',' ') + ' @ ' + ' < '.join('%s:%d' % (f.name, f.lineno) for f in reversed(st) )[:300]
-        CNT[key] += 1
-    return _orig(self, expr, *a, **k)
-SS.StateSpace.choose_possible = _r
-import os
-def dump():
-    with open('/tmp/dbg.log','a') as f:
-        for k, v in CNT.most_common(30): f.write('%d  %s\n' % (v, k))
-_oe = os._exit
-def _exit(c):
-    dump(); _oe(c)
-os._exit = _exit
-
-from crosshair import core as CC
-_osc = CC.consider_shortcircuit
-def _csc(fn, sig, bound, subconditions, allow_interpretation):
-    r = _osc(fn, sig, bound, subconditions, allow_interpretation)
-    with NoTracing():
-        CNT['SC %s -> %r' % (getattr(fn, '__qualname__', fn), r)] += 1
+    import traceback
+    try:
+        r = h.check(0, 0, a)
+    except BaseException as e:
+        with NoTracing():
+            print('EXC', traceback.format_exc()[-1800:])
+        raise
+    if not r:
+        with NoTracing():
+            print('EXPL', deep_realize(h.explain(h.CFG, 0, 0, a)))
     return r
-CC.consider_shortcircuit = _csc
